@@ -30,7 +30,7 @@ CLAIMS = {
         'C02 reads it back; C05_set_path_valid_URI / C05_set_authority_valid_IRI: the same two setters at grammar level (valid parts in, valid parts out, the written path in the path language); C05_replace: tail-preserving splice for any tail length.',
    note=TB),
  'C11': dict(cat='proof', tech='Coq proof (handle invariant Inv, scanner value on the window, splice refinement) + correspondence over call sequences through one handle',
-   text='Theorems C11_view, C11_set_userinfo, C11_set_host, C11_set_port (each editor: no panic, the handle invariant is re-established for the authority with exactly that sub-component replaced, before/after untouched; all branches: replace, insert with delimiter, remove with delimiter, no-op) and C11_history: ANY finite history of calls through one handle with delimiter-valid arguments keeps the invariant, so the handle always views exactly the current authority. The model carries the `end` arithmetic of the code and is compared with the implementation after every call.',
+   text='Theorems C11_view, C11_set_userinfo, C11_set_host, C11_set_port (each editor: no panic, the handle invariant is re-established for the authority with exactly that sub-component replaced, before/after untouched; all branches: replace, insert with delimiter, remove with delimiter, no-op) and C11_history: ANY finite history of calls through one handle with delimiter-valid arguments keeps the invariant, so the handle always views exactly the current authority. C11_history_valid_URI / _IRI: AT THE LEVEL OF THE RFC GRAMMAR, a handle viewing any string of the authority language views a string of the authority language again after any history of edits with component-valid arguments (factorisation of the authority grammar in both directions). The model carries the `end` arithmetic of the code and is compared with the implementation after every call.',
    note=TB),
  'C12': dict(cat='proof', tech='Coq proof (induction over an arbitrary next/next_back script) + model/implementation correspondence with the /-split oracle',
    text='Theorems C12_interleave / C12_interleave_at (for every non-empty path and EVERY finite script of next/next_back calls the iterator model never panics and yields segment k from the front, n-m-1 from the back, None after the cursors meet), C12_segments_are_the_split (forward iteration of any path free of \'?\' \'#\' = the \'/\'-split of the text), C12_join_split. Derived queries: C12_last (last() = the last piece of the split, no panic), C12_parent / C12_parent_or_empty (the text up to the last \'/\', "/" for "/x", the library\'s "/./" for "//x", None / "" when there is nothing to cut); C12_directory (for EVERY byte string, the text up to and including the last \'/\'); first, file_name and the counts are modelled (PathQ.v) and compared with the implementation and an independent split oracle.',
@@ -92,9 +92,7 @@ CLAIMS = {
         'base64 decoding are compared with an independent oracle.',
    note=TB + 'base64 decoding is the external crate (oracle: Python base64).'),
  'C19': dict(cat='proof', tech='Coq proof of totality of the octet view on every valid component (inclusion certificates + induction); character view tested',
-   text='Theorem C19_octets_total_partial (percent-decoding to octets never fails on a valid user info/host/segment/query/fragment of either family), C19_step_literal/_escape. The '
-        'character view (chars/len/decode/==) belongs to the external crate pct-str; it is exercised on every %XX pattern of the property text and through the accessors of generated '
-        'references; its panics/lenient decoding on ill-formed octets are a recorded finding (K_pct_view): partial.',
+   text="Theorem C19_octets_total_partial (percent-decoding to octets never fails on a valid user info/host/segment/query/fragment of either family), C19_step_literal/_escape. The check also feeds values accepted by the validator of the CURRENT tree (walks through the translated automata, biased towards '%'). The character view (chars/len/decode/==) belongs to the external crate pct-str; it is exercised on every %XX pattern of the property text and through the accessors of generated references; its panics/lenient decoding on ill-formed octets are a recorded finding (K_pct_view): partial.",
    note=TB),
 }
 
